@@ -268,6 +268,33 @@ impl MatterLocalService {
     }
 }
 
+/// Verification hook: a thin public wrapper around the crate-private
+/// `MatterLocalService::service_internal`, so that the advertised inputs can be supplied
+/// explicitly (without building a full `Matter` object). Does not change behaviour.
+#[cfg(feature = "verif")]
+impl MatterLocalService {
+    #[allow(clippy::type_complexity)]
+    pub fn verif_service<'a>(
+        &self,
+        dev_det: &BasicInfoConfig<'_>,
+        matter_port: u16,
+        icd_mode: Option<OperatingModeEnum>,
+        buf: &'a mut [u8],
+    ) -> Result<
+        (
+            MdnsLocalService<
+                'a,
+                impl Iterator<Item = &'a str> + Clone,
+                impl Iterator<Item = (&'a str, &'a str)> + Clone,
+            >,
+            &'a mut [u8],
+        ),
+        Error,
+    > {
+        self.service_internal(dev_det, matter_port, icd_mode, buf)
+    }
+}
+
 impl MatterRemoteService {
     /// The DNS-SD service type (without domain) this remote service lives under:
     /// `_matter._tcp` for operational nodes, `_matterc._udp` for commissionable
